@@ -279,6 +279,11 @@ def link_pool():
                  'patterns': [[{'key': 'SC1', 'preds': [pred('resname', 'eq', 'CYS')], 'mods': dict(R.ABSENT)}],
                               [{'key': 'SC1', 'preds': [pred('cgsecstruct', 'eq', 'H')], 'mods': dict(R.ABSENT)}]],
                  'inters': [inter('position_restraints', ['SC1'], P(4, 'pattern'))]})
+    # ---- an atom selected by a CHOICE of atom names (the shipped polarisable force fields exclude a charged terminus from the
+    # charge dummies of its residue this way: XX {"atomname": "SCP|SCN"})
+    pool.append({'name': 'choice-atomname', 'nodes': [node('BB', num(0)),
+                                                     {'key': 'XX', 'order': num(0), 'preds': [pred('atomname', 'in', 'SC1', 'SC2')], 'mods': dict(R.ABSENT)}],
+                 'edges': [['BB', 'XX']], 'inters': [inter('exclusions', ['BB', 'XX'], [])]})
     # ---- a link renames residues to a name that does not occur in the input; a later link selects on the new name
     pool.append({'name': 'rename-residue', 'nodes': [node('BB', num(0), pred('cgsecstruct', 'in', 'C', 'E')), node('+BB', num(1))],
                  'edges': [['BB', '+BB']], 'replaces': [{'key': 'BB', 'attr': 'resname', 'value': 'GLX'}], 'inters': []})
@@ -290,7 +295,7 @@ def link_pool():
 
 
 THEMES = [
-    ['rename-residue', 'on-renamed', 'on-renamed-choice', 'rename-residue', 'single-non-edge', 'single-pattern'],
+    ['rename-residue', 'on-renamed', 'on-renamed-choice', 'rename-residue', 'single-non-edge', 'single-pattern', 'choice-atomname', 'delete-sc2'],
     ['bb-bond', 'bb-bond-helix', 'remove', 'remove-atom-attrs', 'remove-meta', 'remove-meta-choice-params', 'remove-meta-notdef', 'mods-str'],
     ['angle-order', 'angle-arrows', 'angle-geo', 'non-edge', 'remove-versioned', 'angle-geo-formatted'],
     ['mods-empty-replace', 'mods-list', 'mods-list-repeated', 'mods-str', 'mods-choice', 'mods-non-edge', 'mods-pattern', 'choice', 'pattern-null', 'notdef'],
@@ -391,7 +396,7 @@ def _canon(x):
     return json.dumps(x, sort_keys=True)
 
 
-def run_real(M, links):
+def run_real(M, links, proc=None):
     """Build the real objects, check that the generic projection gives the descriptions back, run the real DoLinks with the
     recorder. Returns the (single) run event."""
     mol = build_real(M, links)
@@ -405,7 +410,7 @@ def run_real(M, links):
             and sorted(map(sorted, M0['edges'])) == sorted(map(sorted, M['edges'])))
     if not same:
         raise tlc.MachineryError('projection of a built molecule differs from its description: %s\n%s' % (_canon(M), _canon(M0)))
-    events = R.record_run(mol, ljson, ATTR_KEYS, META_KEYS, UNIT_PM, seg_len=None, with_before=True)
+    events = R.record_run(mol, ljson, ATTR_KEYS, META_KEYS, UNIT_PM, seg_len=None, with_before=True, proc=proc)
     assert len(events) == 1
     return events[0]
 
@@ -424,12 +429,15 @@ def _run_chunk(args):
     out = []
     pool = link_pool()
     byname = {L['name']: L for L in pool}
+    # every other chunk pushes all its molecules through ONE DoLinks object, as run_system does for the molecules of a system
+    from vermouth.processors.do_links import DoLinks
+    shared = DoLinks() if seed % 2 == 0 else None
     for _ in range(n):
         M = make_molecule(rng)
         links = pick_links(rng, pool, byname)
         names = [L['name'] for L in links]
         try:
-            e = run_real(M, links)
+            e = run_real(M, links, shared)
         except tlc.MachineryError:
             raise
         except Exception as exc:      # noqa
